@@ -138,8 +138,9 @@ contract(
 _EDIT_EXT = {
     "parse": External(returns=Ref("NixSourceCode"), params=["source_code"], allocates=True),
     "_resolve_target_set": External(returns=Ref("AttributeSet"), params=["source"], exsures={"ValueError": []},
-                                    ensures=["all(result.scope_state.stack[j] is not None for j in range(len(result.scope_state.stack)))"],
-                                    note="type invariant of ScopeState.stack (list of layer dicts) assumed"),
+                                    ensures=["all(result.scope_state.stack[j] is not None and result.scope_state.stack[j].scope is not None and "
+                                             "len(result.scope_state.stack[j].scope) > 0 for j in range(len(result.scope_state.stack)))"],
+                                    note="type invariant of ScopeState.stack (list of layer dicts with non-empty scopes) assumed"),
     "_format_npath_segments": External(returns=SeqOf("str"), params=["npath"], exsures={"ValueError": []}),
     "_path_exists_in_attrset": External(returns=Bool, params=["target_set", "segments"]),
     "_set_value_in_attrset": External(returns=NoneT, params=["target_set", "npath", "value_expr"], modifies=["*"],
@@ -213,10 +214,21 @@ contract(
     target=f"{M}::_collect_scope_layers",
     params={"expr": Ref("AttributeSet")},
     returns=ListRef(),
+    entry_closure=True,
     modifies=[],
-    requires=["all(expr.scope_state.stack[j] is not None for j in range(len(expr.scope_state.stack)))"],
+    # type invariant of ScopeState.stack: layer dicts whose scope is non-empty (NixExpression.__post_init__ drops the others)
+    requires=["all(expr.scope_state.stack[j] is not None and expr.scope_state.stack[j].scope is not None and "
+              "len(expr.scope_state.stack[j].scope) > 0 for j in range(len(expr.scope_state.stack)))"],
     ensures=[
         "result is not None",
+        # one layer per let block, outermost first, each carrying ITS OWN scope list and `let # comment`
+        "implies(len(expr.scope) > 0, len(result) == 1 + len(expr.scope_state.stack) and "
+        "result[0].after_let_comment is expr.scope_state.after_let_comment)",
+        "implies(len(expr.scope) > 0, all(result[j + 1].scope is expr.scope_state.stack[j].scope and "
+        "result[j + 1].after_let_comment is expr.scope_state.stack[j].after_let_comment for j in range(len(expr.scope_state.stack))))",
+        "implies(len(expr.scope) == 0, len(result) == len(expr.scope_state.stack))",
+        "implies(len(expr.scope) == 0, all(result[j].scope is expr.scope_state.stack[j].scope and "
+        "result[j].after_let_comment is expr.scope_state.stack[j].after_let_comment for j in range(len(expr.scope_state.stack))))",
         # a fresh list of (fresh) layer dicts ...
         "all(result[j] is not None and isinstance(result[j], dict) for j in range(len(result)))",
         # ... outermost first: the expression's own `scope` is layer 0 whenever it is non-empty
@@ -228,7 +240,12 @@ contract(
     loops={0: Loop(invariant=[
         "all(layers[j] is not None and isinstance(layers[j], dict) for j in range(len(layers)))",
         "implies(len(expr.scope) > 0, len(layers) >= 1 and layers[0].scope is expr.scope)",
-        "implies(len(expr.scope) == 0, len(layers) <= _i)",
+        "implies(len(expr.scope) == 0, len(layers) == _i)",
+        "implies(len(expr.scope) > 0, len(layers) == _i + 1 and layers[0].after_let_comment is expr.scope_state.after_let_comment)",
+        "implies(len(expr.scope) > 0, all(layers[j + 1].scope is expr.scope_state.stack[j].scope and "
+        "layers[j + 1].after_let_comment is expr.scope_state.stack[j].after_let_comment for j in range(_i)))",
+        "implies(len(expr.scope) == 0, all(layers[j].scope is expr.scope_state.stack[j].scope and "
+        "layers[j].after_let_comment is expr.scope_state.stack[j].after_let_comment for j in range(_i)))",
         "layers >= alloc_at_entry()",
     ], modifies=["layers[]"])},
     domain=False,
@@ -338,4 +355,25 @@ contract(
     ], modifies=["<entry-lists>[]"])},
     domain=False,
     props=["C05", "C04", "C08"],
+)
+
+# writing the edited layers back: the expression's own scope / state describe the OUTERMOST layer (layers[0]); with no
+# layer left the expression has no scope at all.  (The inner layers go through a list comprehension, which pvc only
+# over-approximates: their content is covered by the bounded stand-in of C09.)
+contract(
+    target=f"{M}::_write_scope_layers",
+    params={"expr": Ref("AttributeSet"), "layers": ListRef(), "restored_layer": OneOf(NoneT, Ref("ScopeLayer"))},
+    returns=NoneT,
+    modifies=["*"],
+    requires=["all(layers[j] is not None and isinstance(layers[j], dict) and layers[j].scope is not None and isinstance(layers[j].scope, Scope) "
+              "for j in range(len(layers)))"],
+    ensures=[
+        "implies(len(layers) == 0, len(expr.scope) == 0 and len(expr.scope_state.stack) == 0 and expr.scope >= alloc_at_entry())",
+        "implies(len(layers) > 0, expr.scope is layers[0].scope)",
+        "implies(len(layers) > 0, expr.scope_state.after_let_comment is layers[0].after_let_comment)",
+        # the layer dicts handed in are not written
+        "all(layers[j].scope is old(layers[j].scope) and layers[j].after_let_comment is old(layers[j].after_let_comment) for j in range(len(layers)))",
+    ],
+    domain=False,
+    props=["C09", "C19"],
 )
